@@ -201,11 +201,17 @@ def search(ck: Check, n: int):
             dr = SphericalDroplet(np.arange(d, dtype=float), x)
             if not rel_close(dr.interface_curvature, 1 / x, 1e-15):
                 ck.fail(f"curvature of sphere r={x!r} is {dr.interface_curvature!r}", {"check": "droplet_curvature", "dim": d}, {"kind": "curv", "dim": d, "x": x})
-            bb = dr.bbox
             lo = np.arange(d) - x
             hi = np.arange(d) + x
-            if not (np.allclose(bb.pos, lo, rtol=1e-15, atol=0) and np.allclose(bb.pos + bb.size, hi, rtol=1e-12, atol=1e-300)):
-                ck.fail(f"bbox of sphere r={x!r} dim={d} is {bb}", {"check": "droplet_bbox", "dim": d}, {"kind": "bbox", "dim": d, "x": x})
+            # (the box follows from radius and position for every droplet with a radius: also diffuse ones, whatever their width)
+            from droplets.droplets import DiffuseDroplet
+
+            for dd, nm in ((dr, "sphere"), (DiffuseDroplet(np.arange(d, dtype=float), x), "diffuse droplet (width unset)"),
+                           (DiffuseDroplet(np.arange(d, dtype=float), x, 0.75 * x), "diffuse droplet (width 0.75 r)"),
+                           (DiffuseDroplet(np.arange(d, dtype=float), x, 2.5), "diffuse droplet (width 2.5)")):
+                bb = dd.bbox
+                if not (np.allclose(bb.pos, lo, rtol=1e-15, atol=0) and np.allclose(bb.pos + bb.size, hi, rtol=1e-12, atol=1e-300)):
+                    ck.fail(f"bbox of {nm} r={x!r} dim={d} is {bb}", {"check": "droplet_bbox", "dim": d}, {"kind": "bbox", "dim": d, "x": x})
     # array variants: same values element-wise, same shape (0-d, 1-d, 2-d arrays)
     arr = np.array(vals[: max(6, min(len(vals), 24))])
     shapes = [arr[0:1].reshape(()), arr, arr[: (len(arr) // 2) * 2].reshape(2, -1)]
